@@ -55,7 +55,7 @@ structure Desc where
   deps : List Dep
   sibs : List Nat := []   -- ids of all descriptors of the registration, this one included ([] = alone)
   disp : Bool := false    -- the value produced for this descriptor has a `Close() error` method
-deriving Repr, Inhabited
+deriving Repr, Inhabited, DecidableEq
 
 /-- layers of godi's error values that are reachable through `errors.Is/As` -/
 inductive Layer
